@@ -698,6 +698,7 @@ def execute(scenario: dict, env: Any) -> dict:
 
     sc = scenario
     oracle = env.resources["oracle"]
+    calls0 = oracle.calls
     w = World(sc)
     objs: dict[str, Any] = {}
     lineage: dict[str, list[int]] = {}
@@ -884,7 +885,7 @@ def execute(scenario: dict, env: Any) -> dict:
     stats["signatures"] = [s]
     if state["nontrivial"]:
         stats["nontrivial"] = [s]
-    stats["extra"]["oracle_calls"] = oracle.calls
+    stats["extra"]["oracle_calls"] = oracle.calls - calls0
     stats["sample"] = {"clients": sc["clients"], "formulas": [f["spec"] for f in sc["formulas"]],
                        "ops": [{k: v for k, v in o.items() if k not in ("pick", "opts")} for o in sc["ops"][:10]], "n_ops": len(sc["ops"]),
                        "hash_seeds": [env.hashseed, oracle.hashseed]}
